@@ -85,6 +85,8 @@ Inductive pc :=
 Proof. solve_decision. Defined.
 
 Record kl := mkKl { kl_val : val; kl_err : option err; kl_closed : bool; kl_key : key (* ghost: the key this lock was created for *) }.
+#[global] Instance kl_eq_dec : EqDecision kl.
+Proof. solve_decision. Defined.
 
 Record thread := mkThread {
   t_pc : pc;
